@@ -222,7 +222,7 @@ class Check:
         for t, v in zip(traces, verdicts):
             if t.get("canary"):
                 self.cov["canaries"]["planted"] += 1
-                if v["ok"]:
+                if v["ok"] and not v.get("drift"):   # a canary of a DRIFT-level clause is noticed through its drift tag
                     # decided in finish(): with violations in the same run the source trace itself was wrong (a canary is a corrupted copy
                     # of a recorded trace, and corrupting a wrong record can make it right); without any, the judge has lost its teeth
                     self.canary_accepted.append(f"canary '{t['canary']}' accepted by {module} (trace {t['id']})")
